@@ -248,8 +248,25 @@ def run(c):
     seed = c.seed
     nrandom = 6000 if quick else 2000000
     t0 = time.time()
-    recs, tots, aborts = run_shards(REPO, 1, 0, seed, nrandom, 900 if quick else 14000)
+    if quick:
+        # two disjoint seeded halves of the mutation list: the second half runs only if the first one took
+        # less than 40 s (an idle 16-core machine does each half in ~20 s), so that the quick tier stays
+        # within its budget on a loaded machine; the corpus above always exercises every recorded site
+        off = seed & 1
+        recs, tots, aborts = run_shards(REPO, 2, off, seed, nrandom, 600)
+        passes = [tots]
+        fraction = "1/2 (seeded half %d; first half took %.0f s)" % (off, time.time() - t0)
+        if time.time() - t0 < 40:
+            r2, t2, a2 = run_shards(REPO, 2, 1 - off, seed, 0, 600)
+            recs, aborts = recs + r2, aborts + a2
+            passes.append(t2)
+            fraction = "all"
+    else:
+        recs, tots, aborts = run_shards(REPO, 1, 0, seed, nrandom, 14000)
+        passes = [tots]
+        fraction = "all"
     sweep_s = round(time.time() - t0, 1)
+    tots = [t for ps in passes for t in ps]
     processed = sum(t["processed"] for t in tots)
     stages = {}
     kinds = {}
@@ -261,10 +278,10 @@ def run(c):
         for k, v in t["kinds"].items():
             kinds[k] = kinds.get(k, 0) + v
     total_enum = max([t["enumerated"] for t in tots] or [0])
-    if len(tots) != NSHARDS:
-        c.report("only %d of %d sweep workers completed" % (len(tots), NSHARDS), {"machinery": "c14work"}, no_input=True)
+    if len(tots) != NSHARDS * len(passes):
+        c.report("only %d of %d sweep workers completed" % (len(tots), NSHARDS * len(passes)), {"machinery": "c14work"}, no_input=True)
     c.cov["sweep"] = {"inputs": processed, "mutations_enumerated": total_enum, "random_inputs": nrandom, "per_stage": stages,
-                      "per_kind": kinds, "wall_s": sweep_s, "workers": NSHARDS, "ulimit_v_kb": VLIMIT_KB}
+                      "per_kind": kinds, "wall_s": sweep_s, "fraction_of_mutations_run": fraction, "workers": NSHARDS, "ulimit_v_kb": VLIMIT_KB}
     parsed = stages.get("calculate", {})
     nontrivial = sum(parsed.values())
     c.count("mutation-sweep", processed)
